@@ -142,3 +142,22 @@ Proof. exact ms_pr_agree. Qed.
 (* the two-system PR form does NOT always agree (guard only in cs_after): finding C18-pr2-guard *)
 Theorem C18_ms_pr2_agree_refuted : ~ ms_pr2_agree_full.
 Proof. exact ms_pr2_agree_refuted. Qed.
+
+(* ---- the two-system PR form (PR_2 entry points), under the hypothesis that "before" carries the guard ---- *)
+Require Import PPLV.Term.CompletePR2.
+
+Theorem C18_pr2_complete : forall n B C q,
+  all_ge B -> all_ge C -> dimc n B -> dimc (n + n) C -> guard_in_before n B C -> (exists x, sat_cons B x) ->
+  ranking n q (rel2 n B C) ->
+  exists u, sat_cons (pr_mip n B C) u /\ forall j, (j < n)%nat -> pr_mu C 0 u j == q j.
+Proof. exact pr2_complete. Qed.
+
+Theorem C18_pr2_test_true_iff_exists_ranking : forall n B C,
+  all_ge B -> all_ge C -> dimc n B -> dimc (n + n) C -> guard_in_before n B C ->
+  ((exists u, sat_cons (pr_mip n B C) u) <-> (exists q, ranking n q (rel2 n B C))).
+Proof. exact pr2_test_iff. Qed.
+
+Theorem C18_ms_pr2_agree_under_guard : forall n B C,
+  all_ge B -> all_ge C -> dimc n B -> dimc (n + n) C -> guard_in_before n B C ->
+  ((exists q, sat_cons (ms_mip n (joint n B C)) q) <-> (exists u, sat_cons (pr_mip n B C) u)).
+Proof. exact ms_pr2_agree_under_guard. Qed.
